@@ -182,12 +182,15 @@ uninterp spec fn murmur128<H>(v: H) -> (u64, u64);
 impl MurmurHash3X64128 {
     uninterp spec fn digest(&self) -> (u64, u64);
     uninterp spec fn fresh(&self) -> bool;
+    // the hasher invariant finish128 needs (unit hash_murmur: a reachable state, fewer than 16 buffered bytes, byte count fits u64)
+    uninterp spec fn fed(&self) -> bool;
     #[verifier::external_body]
     fn default() -> (r: Self)
       ensures r.fresh()
     { unimplemented!() }
     #[verifier::external_body]
     fn finish128(&self) -> (r: (u64, u64))
+      requires self.fed()
       ensures r == self.digest()
     { unimplemented!() }
 }
@@ -195,7 +198,7 @@ impl MurmurHash3X64128 {
 #[verifier::external_body]
 fn vx_hash_into<H: Hash>(v: H, hasher: &mut MurmurHash3X64128)
   requires old(hasher).fresh()
-  ensures final(hasher).digest() == murmur128(v)
+  ensures final(hasher).digest() == murmur128(v), final(hasher).fed()   // `write` keeps the hasher invariant (proved in unit hash_murmur)
 { unimplemented!() /* v.hash(hasher) */ }
 
 fn coupon < H : Hash > ( v : H ) -> ( r : u32 ) ensures
